@@ -21,7 +21,8 @@ def plan(tier: str, seed: int) -> List[Dict[str, Any]]:
     return [{'seed': seed, 'shard': i, 'cases': per, 'timeout_s': 1500 if quick else 7200} for i in range(n)]
 
 
-def assemble_files(files: List[Tuple[str, str]], w: int, tag: str, prefix: Any = (), keep_existing: bool = False) -> Tuple[str, Any, Any]:
+def assemble_files(files: List[Tuple[str, str]], w: int, tag: str, prefix: Any = (), keep_existing: bool = False,
+                   max_recursion_depth: Any = None) -> Tuple[str, Any, Any]:
     """prefix: (short name, path) source files put in front (e.g. a file of the repository's stl, which goes through the parser's
     stl-prefix cache); keep_existing: write over whatever an earlier assembly left at the output paths."""
     import flipjump
@@ -45,7 +46,8 @@ def assemble_files(files: List[Tuple[str, str]], w: int, tag: str, prefix: Any =
     try:
         with contextlib.redirect_stdout(io.StringIO()):
             writer = Writer(out, w, FJMVersion(1))
-            assembler.assemble(tuples, w, writer, warning_as_errors=False, debugging_file_path=dbg, print_time=False)
+            kw = {} if max_recursion_depth is None else {'max_recursion_depth': max_recursion_depth}
+            assembler.assemble(tuples, w, writer, warning_as_errors=False, debugging_file_path=dbg, print_time=False, **kw)
     except flipjump.FlipJumpException as exc:
         return 'rejected', exc, None
     except BaseException as exc:  # noqa: B902
@@ -64,7 +66,7 @@ def judge(gen: macrogen.Generated, counters: Dict[str, Any]) -> List[Tuple[str, 
     prefix = [('s0', REPO_ROOT / 'flipjump' / 'stl' / 'runlib.fj')] if counters.get('monitor_evaluations', 0) % 6 == 5 else []
     if prefix:
         counters['programs_behind_a_cached_stl_prefix'] = counters.get('programs_behind_a_cached_stl_prefix', 0) + 1
-    status_m, image_m, labels_m = assemble_files(gen.files, gen.w, 'macro', prefix=prefix)
+    status_m, image_m, labels_m = assemble_files(gen.files, gen.w, 'macro', prefix=prefix, max_recursion_depth=getattr(gen, 'max_recursion_depth', None))
     status_i, image_i, labels_i = assemble_files([('f1', gen.inlined)], gen.w, 'inlined', prefix=prefix)
     counters['monitor_evaluations'] = counters.get('monitor_evaluations', 0) + 1
     counters.setdefault('outcomes', {})
@@ -109,6 +111,24 @@ def guarded_recursion(rng: Any) -> macrogen.Generated:
     return gen
 
 
+def on_the_limit(rng: Any) -> macrogen.Generated:
+    """macros that use macros, N levels deep, assembled with max_recursion_depth=N: 'the compiler supports macros that recursively use
+    other macros, up to the specified recursion depth' - the deepest allowed level is allowed. plain calls only (one level each)."""
+    gen = macrogen.Generated()
+    gen.w = rng.choice([16, 32, 64])
+    depth = rng.choice([1, 2, 3, 7, 20, 64, 200])
+    lines = []
+    for k in range(depth):
+        body = f'  c{k + 1} a + 1\n' if k + 1 < depth else '  ;a\n'
+        lines.append(f'def c{k} a @ here {{\n  here:\n  ;here\n{body}}}\n')
+    gen.files = [('f1', ''.join(lines) + ';\nc0 0\n;\n')]
+    gen.inlined = ';\n' + ''.join(f'H{k}:\n;H{k}\n' for k in range(depth)) + f';{depth - 1}\n;\n'
+    gen.max_recursion_depth = depth
+    gen.features = {'programs-exactly-on-the-recursion-depth-limit': 1}
+    gen.calls_expanded = depth
+    return gen
+
+
 def run_shard(spec: Dict[str, Any], journal: Any) -> Dict[str, Any]:
     rng = rng_for(spec['seed'], PROPERTY, spec['shard'])
     counters: Dict[str, Any] = {}
@@ -116,7 +136,7 @@ def run_shard(spec: Dict[str, Any], journal: Any) -> Dict[str, Any]:
     hashes: List[str] = []
     samples: List[Any] = []
     for index in range(spec['cases']):
-        gen = macrogen.generate(rng) if index != 3 else guarded_recursion(rng)
+        gen = guarded_recursion(rng) if index == 3 else on_the_limit(rng) if index in (5, 6) else macrogen.generate(rng)
         journal.note({'files': gen.files, 'inlined': gen.inlined, 'w': gen.w})
         found = judge(gen, counters)
         for f, n in gen.features.items():
@@ -128,7 +148,8 @@ def run_shard(spec: Dict[str, Any], journal: Any) -> Dict[str, Any]:
         for key, what in found:
             if sum(1 for v in violations if v['key'] == key) < 3:
                 violations.append({'key': key, 'what': f'w={gen.w}: {what}',
-                                   'replay': {'files': gen.files, 'inlined': gen.inlined, 'w': gen.w}})
+                                   'replay': {'files': gen.files, 'inlined': gen.inlined, 'w': gen.w,
+                                              'max_recursion_depth': getattr(gen, 'max_recursion_depth', None)}})
         if gen.collisions and gen.calls_expanded >= 2:
             hashes.append(case_hash([gen.files, gen.w]))
         if len(samples) < 1 and gen.collisions >= 2 and gen.calls_expanded >= 3:
@@ -143,6 +164,8 @@ def replay_case(record: Dict[str, Any], journal: Any) -> Dict[str, Any]:
     gen = macrogen.Generated()
     gen.files = [tuple(f) for f in record['files']]
     gen.inlined, gen.w = record['inlined'], record['w']
+    if record.get('max_recursion_depth') is not None:
+        gen.max_recursion_depth = record['max_recursion_depth']
     counters: Dict[str, Any] = {}
     found = judge(gen, counters)
     return {'counters': counters, 'violations': [{'key': k, 'what': w, 'replay': record} for k, w in found], 'evaluations': 1, 'hashes': []}
